@@ -13,7 +13,7 @@ func toString(v reflect.Value) string {
 	if v.Kind() == reflect.Interface && !v.IsNil() {
 		v = v.Elem()
 	}
-	if v.Kind() == reflect.Ptr {
+	if v.Kind() == reflect.Ptr && !v.IsNil() {
 		v = v.Elem()
 	}
 	if v.Kind() == reflect.String {
